@@ -95,7 +95,7 @@ def run_all(pid=None, jobs=16, ids=None):
     from .variants import VARIANTS
     vs = [v for v in VARIANTS if (pid is None or v[1] == pid) and (ids is None or v[0] in ids)]
     pids = sorted({v[1] for v in VARIANTS}) if pid is None else [pid]
-    gts = [(f'{p.lower()}-gtwin-{mode}', p, 'twin', mode, None, None, None) for p in pids for mode in ('unparse', 'rename', 'flip', 'hoist', 'cmpswap', 'elsify', 'opaque', 'swapadj', 'withmerge')
+    gts = [(f'{p.lower()}-gtwin-{mode}', p, 'twin', mode, None, None, None) for p in pids for mode in ('unparse', 'rename', 'flip', 'hoist', 'cmpswap', 'elsify', 'opaque', 'swapadj', 'withmerge', 'loopify', 'walrus')
            if ids is None or f'{p.lower()}-gtwin-{mode}' in ids]
     with cf.ThreadPoolExecutor(max_workers=jobs) as ex:
         res = list(ex.map(run_variant, vs)) + list(ex.map(run_global_twin, gts))
